@@ -89,6 +89,23 @@ func restExprHook(t *tr, e ast.Expr) (string, *ty, bool) {
 				}
 				return s, tBool, true
 			}
+			if _, isId := e.X.(*ast.Ident); !isId {
+				// a pointer field compared with nil
+				xs, xt := t.expr(e.X)
+				if xt.k == "opt" {
+					s := "(match " + xs + " with Some _ => true | None => false end)"
+					if e.Op == token.EQL {
+						s = "(negb " + s + ")"
+					}
+					return s, tBool, true
+				}
+			}
+		}
+	case *ast.StarExpr:
+		// *x of a pointer to a slice: only under `if x != nil` (checked by restDerefsGuarded before the translation)
+		xs, xt := t.expr(e.X)
+		if xt.k == "opt" && xt.elem.k == "bytes" {
+			return "(match " + xs + " with Some v_ => v_ | None => [] end)", tBytes, true
 		}
 	case *ast.CallExpr:
 		switch f := e.Fun.(type) {
@@ -326,6 +343,37 @@ func (t *tr) sliceNilParams(d *ast.FuncDecl) map[string]bool {
 	return out
 }
 
+// restDerefsGuarded refuses a function in which a dereference *E is not inside the body of an `if E != nil`.
+func (t *tr) restDerefsGuarded(d *ast.FuncDecl) {
+	var walk func(n ast.Node, nonNil map[string]bool)
+	walk = func(n ast.Node, nonNil map[string]bool) {
+		ast.Inspect(n, func(x ast.Node) bool {
+			switch x := x.(type) {
+			case *ast.IfStmt:
+				if b, ok := x.Cond.(*ast.BinaryExpr); ok && b.Op == token.NEQ && isIdent(b.Y, "nil") && x.Init == nil {
+					inner := map[string]bool{gsrc(b.X): true}
+					for k := range nonNil {
+						inner[k] = true
+					}
+					walk(x.Body, inner)
+					if x.Else != nil {
+						walk(x.Else, nonNil)
+					}
+					return false
+				}
+			case *ast.ArrayType, *ast.MapType, *ast.FuncType:
+				return false // a type, not a dereference
+			case *ast.StarExpr:
+				if !nonNil[gsrc(x.X)] {
+					t.fail(x, "dereference outside `if %s != nil`", gsrc(x.X))
+				}
+			}
+			return true
+		})
+	}
+	walk(d.Body, map[string]bool{})
+}
+
 // restFunction translates one declaration with tr. A function without results returns the final value of its
 // receiver (a method that writes the map the receiver holds).
 func (p *pkg) restFunction(key string) string {
@@ -336,6 +384,7 @@ func (p *pkg) restFunction(key string) string {
 	var loops []string
 	t := &tr{p: p, fn: key, env: map[string]*ty{}, optPar: map[string]bool{}, loops: &loops}
 	rest.nilPar = t.sliceNilParams(d)
+	t.restDerefsGuarded(d)
 	var params []string
 	var sig []*ty
 	addParam := func(name string, te ast.Expr) {
@@ -481,6 +530,7 @@ var restPlain = []restEntry{
 	{"StreamType.IsAudio", false},
 	{"DescriptorParentalRatingItem.MinimumAge", false},
 	{"calcDescriptorUserDefinedLength", false},
+	{"calcDescriptorExtensionLength", false},
 }
 
 func (p *pkg) emitRestGen() string {
